@@ -15,7 +15,7 @@ MISMATCH_FN = "mismatch"
 # admin violates it -> open KNOWN FINDING (known_findings.json, signature {"kind": "burnnative-moves-tf-supply"}).
 # C15_LENIENT=1 evaluates the form the implementation realises (native burn of the signer's own coins allowed).
 VIOLATES_FN = "violates" if os.environ.get("C15_LENIENT") else "violates_strict"
-RULE = ("txs of 1-4 messages (35 % of the cases hold a tx whose LATER message fails — blocked target, unknown denom, not admin, "
+RULE = ("genesis export/import round trips of the module (export, empty the module store, import) at arbitrary points, after hand-overs to funded successors, to a never-funded address (no x/auth account) and on renounced / foreign-admin genesis denoms, followed by attempts of every party; the admins a genesis section states must be the admins installed; txs of 1-4 messages (35 % of the cases hold a tx whose LATER message fails — blocked target, unknown denom, not admin, "
         "insufficient funds — after a hand-over / mint in the same tx, signed by one or two signers, followed by mint / burn / hand-over "
         "attempts of every party); case = optional genesis denoms (renounced / foreign admin, pre-funded) + 4-12 token-factory messages "
         "(CreateDenom, Mint, Burn, ChangeAdmin, SetDenomMetadata, BurnNative) each delivered through DeliverTx, signed by "
@@ -65,6 +65,8 @@ def _op(op, ob):
     s = _s("@%d" % op["sender"])
     t = op["t"]
     d = _s(op.get("denom", ""))
+    if t == "reimport":
+        return "Reimport"
     if t == "create":
         return "Create %s %s" % (s, _s(op.get("sub", "")))
     if t == "mint":
@@ -95,7 +97,8 @@ def to_coq_case(rec):
     for tx in _txs(rec):
         last = tx[-1][1]
         steps.append("([%s], %s, %s)" % ("; ".join("(%s)" % _op(op, ob) for op, ob in tx), _b(last["ok"]), _raw(last["snap"])))
-    return "([%s], %s, %s, [%s])" % ("; ".join(_s(b) for b in o["blocked"]), _keys(o["init"]), _raw(o["init"]), ";\n    ".join(steps))
+    gen = "; ".join("(%s, Some %s)" % (_s(g["denom"]), _s(g.get("admin", ""))) for g in (rec["input"].get("genesis") or []))
+    return "([%s], [%s], %s, %s, [%s])" % ("; ".join(_s(b) for b in o["blocked"]), gen, _keys(o["init"]), _raw(o["init"]), ";\n    ".join(steps))
 
 
 def _admin_before(rec):
@@ -136,6 +139,10 @@ def classify(rec):
     for op, ob, adm in zip(rec["input"]["ops"], rec["obs"]["ops"], before):
         ks.append("op:%s/%s" % (op["t"], "accepted" if ob["ok"] else "rejected"))
         d = op.get("denom", "")
+        if op["t"] == "reimport":
+            continue
+        if op.get("new_admin") == "@7" or adm.get(d) == "@7":
+            ks.append("admin-without-account")
         if op["t"] != "create":
             known = adm.get(d) is not None
             ks.append("denom:" + ("registered" if known else "unregistered"))
